@@ -1,5 +1,6 @@
 """C15 - Bundled plugins preserve client behaviour apart from their documented change."""
 import hashlib
+import ast
 import importlib
 import inspect
 import json
@@ -9,7 +10,7 @@ import sys
 import typing
 
 import pydantic
-from graphql import build_schema, parse
+from graphql import GraphQLNonNull, Undefined, build_schema, get_named_type, is_leaf_type, parse
 from hypothesis import strategies as st
 from pydantic_core import to_jsonable_python
 
@@ -78,6 +79,10 @@ def _cases(draw):
     cfg = base_config(d, otel=False)
     def hook(dd, desc):
         desc.scalar_kinds = {"Money": "money", "DateTime": "datetime"}
+        qf = desc.objects[desc.query]["fields"]
+        if "DateTime" in desc.scalars and dd.bool(0.6) and not any(f["name"] == "stampedAt" for f in qf):
+            # a root field of the externally typed scalar, selectable on its own (see SoloStamp below)
+            qf.append({"name": "stampedAt", "type": dd.choice(["DateTime", "DateTime!", "[DateTime!]"]), "args": []})
 
     def scalar_cfg(dd, desc):
         from vf.gen_project import SCALARS_IMPL
@@ -100,13 +105,54 @@ def _cases(draw):
     case = build(
         d, config=cfg, calls_per_op=2,
         schema_kw={"defaults": 0.1, "scalar_names": ("Money", "DateTime"), "n_scalars": (0, 2), "scalar_weight": 2},
-        ops_kw={"frag_p": 0.6, "var_p": 0.5, "local_var_names": True, "root_frag_reroll_p": 0.0, "root_family_p": 0.35},
+        ops_kw={"frag_p": 0.6, "var_p": 0.5, "local_var_names": True, "root_frag_reroll_p": 0.0, "root_family_p": 0.35, "root_only_spreads_p": 0.45},
         doc_kw={"n_ops": (1, 4), "n_frags": (0, 4)}, desc_hook=hook, config_desc_fn=scalar_cfg,
         subscriptions_if_async=True,
     )
     case.pop("_desc_obj", None)
     if case.get("rejected"):
         return case
+    if d.bool(0.45):
+        # an operation whose ONLY top-level field is a leaf (ShorterResults then returns the bare scalar / enum value, and
+        # the client module itself needs whatever that annotation names - e.g. `datetime` for a configured scalar)
+        root = build_schema(case["sdl"]).query_type
+        leaves = [(n, f) for n, f in root.fields.items() if is_leaf_type(get_named_type(f.type))
+                  and not any(isinstance(a.type, GraphQLNonNull) and a.default_value is Undefined for a in f.args.values())]
+        external = [n for n, f in leaves if get_named_type(f.type).name == "DateTime"]  # configured as datetime.datetime
+        other = [n for n, f in leaves if n not in external]
+        picks = []
+        if external and d.bool(0.8):
+            picks.append(("SoloStamp", d.choice(external)))
+            d.tag("op.single_custom_scalar_root_field")
+        if other and (not picks or d.bool(0.5)):
+            picks.append(("SoloLeaf", d.choice(other)))
+        taken = {o["name"] for o in case["ops"]}
+        for opname, n in picks:
+            if opname in taken:
+                continue
+            case["queries"] += f"\nquery {opname} {{ {n} }}\n"
+            case["ops"].append({"name": opname, "kind": "query", "vars": []})
+            case["calls"].append({"op": opname, "args": {}})
+            d.tag("op.single_leaf_root_field")
+    if d.bool(0.3):
+        # a chain of fragments on the query root, spread by an operation that selects nothing itself: the result class
+        # has NO own field, its base ONE, that one's base the rest (ShorterResults has to count inherited fields at
+        # every depth before it unwraps)
+        root = build_schema(case["sdl"]).query_type
+        leaves = [n for n, f in root.fields.items() if is_leaf_type(get_named_type(f.type)) and not f.args]
+        taken = {o["name"] for o in case["ops"]} | set(re.findall(r"fragment (\w+) on", case["queries"]))
+        if len(leaves) >= 2 and not taken & {"SoloChain", "SoloTop", "SoloMid", "SoloBase"}:
+            picked = d.sample(leaves, d.int(2, min(3, len(leaves))))
+            depth3 = len(picked) == 3
+            defs = [f"fragment SoloBase on {root.name} {{ {picked[-1]} }}"]
+            if depth3:
+                defs.append(f"fragment SoloMid on {root.name} {{ {picked[1]} ...SoloBase }}")
+            defs.append(f"fragment SoloTop on {root.name} {{ {picked[0]} ...{'SoloMid' if depth3 else 'SoloBase'} }}")
+            defs.append("query SoloChain { ...SoloTop }")
+            case["queries"] += "\n" + "\n".join(d.shuffle(defs)) + "\n"
+            case["ops"].append({"name": "SoloChain", "kind": "query", "vars": []})
+            case["calls"].append({"op": "SoloChain", "args": {}})
+            d.tag("op.root_fragment_chain_only")
     case["server_kw"] = {"unique_scalars": ["Money"], "scalar_values": {"DateTime": ["2020-01-02T03:04:05", "1999-12-31T23:59:59"]}}
     mode = d.weighted([(4, "subset"), (1, "identity_alone"), (1, "noreimports_alone"), (1, "order")])
     if mode == "identity_alone":
@@ -158,7 +204,15 @@ def norm_hints(method, pkg, other_name):
     for fn in os.listdir(os.path.dirname(pkg.__file__)):
         if fn.endswith(".py") and fn not in ("__init__.py",):
             try:
-                ns.update({k: v for k, v in vars(importlib.import_module(pkg.__name__ + "." + fn[:-3])).items() if isinstance(v, type)})
+                # only what the package's modules DEFINE themselves (classes, aliases such as `MoneyStr = str` - the
+                # local imports the plugin documents as deferred); whatever they import from outside the package
+                # (typing.Any, datetime, ...) has to be resolvable from the client module's own globals
+                m = importlib.import_module(pkg.__name__ + "." + fn[:-3])
+                foreign = set()
+                for node in ast.walk(ast.parse(open(m.__file__).read())):
+                    if isinstance(node, ast.ImportFrom) and node.level == 0 or isinstance(node, ast.Import):
+                        foreign.update((a.asname or a.name).split(".")[0] for a in node.names)
+                ns.update({k: v for k, v in vars(m).items() if isinstance(v, type) and k not in foreign})
             except Exception:  # noqa: BLE001
                 pass
     f = method.__func__ if hasattr(method, "__func__") else method
